@@ -23,8 +23,23 @@ type captured struct {
 	Err     string
 }
 
+// injection: while the K-th compaction file-system call of the run is being made, a burst of further requests
+// arrives and is written to the log (the thread making the call waits until the log queue is flushed).
+type captureInject struct {
+	AtPoint int     // index among the compaction points of the run
+	Burst   []SeqOp
+	OpIndex int     // out: index of the history op during which the burst was injected (-1: never reached)
+}
+
 func runCapture(cfg hapi.Config, hist []SeqOp, everyPoint bool) *captured {
+	return runCaptureInject(cfg, hist, everyPoint, nil)
+}
+
+func runCaptureInject(cfg hapi.Config, hist []SeqOp, everyPoint bool, inj *captureInject) *captured {
 	out := &captured{}
+	if inj != nil {
+		inj.OpIndex = -1
+	}
 	_, hist = assignReq(nil, hist)
 	rt := vrt.Run(vrt.Options{MaxPoints: 100_000_000}, func() {
 		node := hapi.Factories["n0"](cfg)
@@ -35,13 +50,31 @@ func runCapture(cfg hapi.Config, hist []SeqOp, everyPoint bool) *captured {
 		clients := []hapi.Client{node.NewMemClient("a"), node.NewMemClient("b")}
 		vrt.AdvanceTo(1300 * ms)
 		fs := vos.Cur()
-		if everyPoint {
+		cur, seen, busy := -1, 0, false
+		if everyPoint || inj != nil {
 			fs.OnPoint = func(p vos.FSPoint) {
-				out.Points = append(out.Points, fs.Image())
-				out.PointAt = append(out.PointAt, p)
+				if everyPoint {
+					out.Points = append(out.Points, fs.Image())
+					out.PointAt = append(out.PointAt, p)
+				}
+				if inj != nil && !busy && isCompactionPoint(p) {
+					if seen == inj.AtPoint && inj.OpIndex < 0 {
+						busy = true
+						inj.OpIndex = cur
+						_, burst := assignReq(nil, inj.Burst)
+						for _, b := range burst {
+							b.Cmd.Req += 100
+							clients[1].Do(b.Cmd.Build())
+						}
+						node.Poke("flushaof")
+						busy = false
+					}
+					seen++
+				}
 			}
 		}
-		for _, o := range hist {
+		for i, o := range hist {
+			cur = i
 			if o.Cmd != nil {
 				clients[o.Client].Do(o.Cmd.Build())
 				vrt.Quiesce()
